@@ -20,7 +20,7 @@ enum {
 	ST_REPARSE_OK, ST_PDU_RESP, ST_SIG_FROM_RESP, ST_EL_SERIALIZED, ST_EL_DETACHED, ST_URI_CONFIG,
 	ST_SKIP_QUARANTINE, ST_SKIP_BLOCKED,
 	ST_MUT_STRUCT, ST_MUT_PLAIN, ST_MUT_TEXT, ST_MUT_CROSS, ST_RENDER_UNTERMINATED, ST_EL_BUDGET_STOP,
-	ST_CLIENT_SIGN, ST_CLIENT_EXTEND, ST_CLIENT_OK,
+	ST_CLIENT_SIGN, ST_CLIENT_EXTEND, ST_CLIENT_OK, ST_FROM_FILE, ST_FROM_FILE_OK,
 	C12_NSTAT = 64
 };
 #define C12_STAT_NAMES { \
@@ -30,7 +30,8 @@ enum {
 	[ST_SIG_FROM_RESP] = "sig_built_from_response", [ST_EL_SERIALIZED] = "tlvelement_serialized", [ST_EL_DETACHED] = "tlvelement_detached", \
 	[ST_URI_CONFIG] = "uri_endpoint_configs", [ST_SKIP_QUARANTINE] = "skipped_entry_quarantined", [ST_SKIP_BLOCKED] = "skipped_blocklisted", \
 	[ST_MUT_STRUCT] = "mut_structural", [ST_MUT_PLAIN] = "mut_plain", [ST_MUT_TEXT] = "mut_text", [ST_MUT_CROSS] = "mut_crossover", [ST_RENDER_UNTERMINATED] = "render_left_buffer_unterminated", [ST_EL_BUDGET_STOP] = "tlvelement_walk_stopped_by_work_budget", \
-	[ST_CLIENT_SIGN] = "client_sign_round_trips", [ST_CLIENT_EXTEND] = "client_extend_round_trips", [ST_CLIENT_OK] = "client_round_trips_succeeded" }
+	[ST_CLIENT_SIGN] = "client_sign_round_trips", [ST_CLIENT_EXTEND] = "client_extend_round_trips", [ST_CLIENT_OK] = "client_round_trips_succeeded", \
+	[ST_FROM_FILE] = "objects_read_through_the_file_entry_points", [ST_FROM_FILE_OK] = "file_entry_point_succeeded" }
 #define C12_ENTRY_NAMES { "sig_parse", "sig_parse_empty_policy", "aggr_pdu", "ext_pdu", "pubfile", "pubstring", "tlv_parseblob", "ftlv_memread", "tlvelement", "uri", "hashalg_name" }
 
 extern uint64_t *c12_stat;
